@@ -222,6 +222,26 @@ func (k *Key) PGPEntity() *openpgp.Entity {
 		PrivateKey: k.private,
 		Identities: map[string]*openpgp.Identity{},
 	}
+	if k.private == nil {
+		// Without the private key (that is, when verifying the signature of someone else), AddUserId
+		// can't self-sign the identity. An unsigned identity flagged for signing is all that is needed
+		// to check a signature.
+		uid := packet.NewUserId("name", "", "")
+		isPrimaryId := true
+		e.Identities[uid.Id] = &openpgp.Identity{
+			Name:   uid.Id,
+			UserId: uid,
+			SelfSignature: &packet.Signature{
+				SigType:      packet.SigTypePositiveCert,
+				CreationTime: k.public.CreationTime,
+				IsPrimaryId:  &isPrimaryId,
+				FlagsValid:   true,
+				FlagSign:     true,
+				FlagCertify:  true,
+			},
+		}
+		return e
+	}
 	// somehow initialize the proper fields with identity, self-signature ...
 	err := e.AddUserId("name", "", "", nil)
 	if err != nil {
